@@ -742,56 +742,268 @@ theorem substGates_total (pm : List (String × Expr K)) (qvars : List String) (f
   obtain ⟨qs, hqs⟩ := this
   simp [hqs]
 
+theorem mapE_error_iff {α β : Type} (f : α → Except Err β) (l : List α) (e : Err) :
+    mapE f l = .error e ↔
+      ∃ pre a post, l = pre ++ a :: post ∧ (∀ x ∈ pre, ∃ b, f x = .ok b) ∧ f a = .error e := by
+  induction l with
+  | nil =>
+    simp only [mapE]
+    constructor
+    · intro h; cases h
+    · rintro ⟨pre, a, post, h, _⟩
+      cases pre <;> simp at h
+  | cons a as ih =>
+    simp only [mapE]
+    cases hfa : f a with
+    | error e' =>
+      simp only
+      constructor
+      · intro h; cases h
+        exact ⟨[], a, as, rfl, by simp, hfa⟩
+      · rintro ⟨pre, a', post, h1, h2, h3⟩
+        cases pre with
+        | nil => simp at h1; rw [← h1.1, hfa] at h3; cases h3; rfl
+        | cons x pre' =>
+          simp at h1
+          obtain ⟨b, hb⟩ := h2 x (by simp)
+          rw [← h1.1, hfa] at hb; cases hb
+    | ok b =>
+      simp only
+      cases hr : mapE f as with
+      | error e'' =>
+        simp only
+        rw [hr] at ih
+        constructor
+        · intro h
+          obtain ⟨pre, a', post, h1, h2, h3⟩ := ih.1 h
+          refine ⟨a :: pre, a', post, by simp [h1], ?_, h3⟩
+          intro x hx
+          cases hx with
+          | head => exact ⟨b, hfa⟩
+          | tail _ hx' => exact h2 x hx'
+        · rintro ⟨pre, a', post, h1, h2, h3⟩
+          cases pre with
+          | nil => simp at h1; rw [← h1.1, hfa] at h3; cases h3
+          | cons x pre' =>
+            simp at h1
+            exact ih.2 ⟨pre', a', post, h1.2, fun y hy => h2 y (by simp [hy]), h3⟩
+      | ok bs =>
+        simp only
+        rw [hr] at ih
+        constructor
+        · intro h; cases h
+        · rintro ⟨pre, a', post, h1, h2, h3⟩
+          cases pre with
+          | nil => simp at h1; rw [← h1.1, hfa] at h3; cases h3
+          | cons x pre' =>
+            simp at h1
+            have := ih.2 ⟨pre', a', post, h1.2, fun y hy => h2 y (by simp [hy]), h3⟩
+            cases this
+
+theorem mapE_ok_exists_iff {α β : Type} (f : α → Except Err β) (l : List α) :
+    (∃ bs, mapE f l = .ok bs) ↔ ∀ a ∈ l, ∃ b, f a = .ok b := by
+  constructor
+  · rintro ⟨bs, h⟩
+    have hp := (mapE_ok_iff f l bs).1 h
+    clear h
+    induction hp with
+    | nil => simp
+    | cons hab _ ih =>
+      intro x hx
+      cases hx with
+      | head => exact ⟨_, hab⟩
+      | tail _ hx' => exact ih x hx'
+  · exact mapE_total f l
+
+theorem substQubit_zip_ok_iff (qvars : List String) (fs : List Nat) (hl : qvars.length = fs.length) (q : Qubit) :
+    (∃ q', substQubit (qvars.zip (fs.map Qubit.fixed)) q = .ok q') ↔ ∃ v, q = Qubit.var v ∧ v ∈ qvars := by
+  constructor
+  · rintro ⟨q', h⟩
+    obtain ⟨v, hv, hlk⟩ := (substQubit_ok_iff _ _ _).1 h
+    refine ⟨v, hv, ?_⟩
+    by_cases hm : v ∈ qvars
+    · exact hm
+    · have := (lookupLast_zip_none qvars (fs.map Qubit.fixed) v (by simp [hl])).2 hm
+      rw [this] at hlk; cases hlk
+  · rintro ⟨v, hv, hm⟩
+    subst hv
+    simp only [substQubit]
+    cases hlk : lookupLast (qvars.zip (fs.map Qubit.fixed)) v with
+    | some w => exact ⟨w, rfl⟩
+    | none =>
+      exact absurd hm ((lookupLast_zip_none qvars (fs.map Qubit.fixed) v (by simp [hl])).1 hlk)
+
+theorem substQubit_zip_error_iff (qvars : List String) (fs : List Nat) (hl : qvars.length = fs.length)
+    (q : Qubit) (e : Err) :
+    substQubit (qvars.zip (fs.map Qubit.fixed)) q = .error e ↔
+      ((∀ v, q ≠ Qubit.var v) ∧ e = .invalidElemQubit q) ∨
+      (∃ v, q = Qubit.var v ∧ v ∉ qvars ∧ e = .undefinedElemQubit v) := by
+  cases q with
+  | fixed n =>
+    simp only [substQubit]
+    constructor
+    · intro h; cases h; exact .inl ⟨by simp, rfl⟩
+    · rintro (⟨_, h⟩ | ⟨v, h, _⟩)
+      · rw [h]
+      · cases h
+  | placeholder k =>
+    simp only [substQubit]
+    constructor
+    · intro h; cases h; exact .inl ⟨by simp, rfl⟩
+    · rintro (⟨_, h⟩ | ⟨v, h, _⟩)
+      · rw [h]
+      · cases h
+  | var v =>
+    simp only [substQubit]
+    cases hlk : lookupLast (qvars.zip (fs.map Qubit.fixed)) v with
+    | some w =>
+      simp only
+      have hm : v ∈ qvars := by
+        by_cases hm : v ∈ qvars
+        · exact hm
+        · have := (lookupLast_zip_none qvars (fs.map Qubit.fixed) v (by simp [hl])).2 hm
+          rw [this] at hlk; cases hlk
+      constructor
+      · intro h; cases h
+      · rintro (⟨h, _⟩ | ⟨v', h1, h2, _⟩)
+        · exact absurd rfl (h v)
+        · cases h1; exact absurd hm h2
+    | none =>
+      simp only
+      have hm := (lookupLast_zip_none qvars (fs.map Qubit.fixed) v (by simp [hl])).1 hlk
+      constructor
+      · intro h; cases h; exact .inr ⟨v, rfl, hm, rfl⟩
+      · rintro (⟨h, _⟩ | ⟨v', h1, _, h3⟩)
+        · exact absurd rfl (h v)
+        · cases h1; rw [h3]
+
+theorem all_bound_iff (qvars : List String) (pre : List Qubit) :
+    (∀ x ∈ pre, ∃ v, x = Qubit.var v ∧ v ∈ qvars) ↔ ∃ vs : List String, pre = vs.map Qubit.var ∧ ∀ v ∈ vs, v ∈ qvars := by
+  induction pre with
+  | nil => simp
+  | cons x xs ih =>
+    constructor
+    · intro h
+      obtain ⟨v, hv, hm⟩ := h x (by simp)
+      obtain ⟨vs, h1, h2⟩ := ih.1 fun y hy => h y (by simp [hy])
+      refine ⟨v :: vs, by simp [hv, h1], ?_⟩
+      intro w hw
+      cases hw with
+      | head => exact hm
+      | tail _ hw' => exact h2 w hw'
+    · rintro ⟨vs, h1, h2⟩
+      cases vs with
+      | nil => simp at h1
+      | cons v vs' =>
+        simp at h1
+        intro y hy
+        cases hy with
+        | head => exact ⟨v, h1.1, h2 v (by simp)⟩
+        | tail _ hy' => exact ih.2 ⟨vs', h1.2, fun w hw => h2 w (by simp [hw])⟩ y hy'
+
+theorem substGate_zip_ok_iff (pm : List (String × Expr K)) (qvars : List String) (fs : List Nat)
+    (hl : qvars.length = fs.length) (e : Gate K) :
+    (∃ b, substGate pm (qvars.zip (fs.map Qubit.fixed)) e = .ok b) ↔ BoundQubits qvars e := by
+  unfold BoundQubits
+  rw [← show (∀ a ∈ e.qubits, ∃ b, substQubit (qvars.zip (fs.map Qubit.fixed)) a = .ok b) ↔ _ from
+    forall_congr' fun q => imp_congr_right fun _ => substQubit_zip_ok_iff qvars fs hl q]
+  rw [← mapE_ok_exists_iff]
+  unfold substGate
+  constructor
+  · rintro ⟨b, h⟩
+    split at h
+    · cases h
+    · rename_i qs hqs; exact ⟨qs, hqs⟩
+  · rintro ⟨qs, hqs⟩
+    simp [hqs]
+
+theorem substGate_error_iff (pm : List (String × Expr K)) (qm : List (String × Qubit)) (e : Gate K) (err : Err) :
+    substGate pm qm e = .error err ↔ mapE (substQubit qm) e.qubits = .error err := by
+  unfold substGate
+  cases h : mapE (substQubit qm) e.qubits with
+  | error e' => simp
+  | ok qs => simp
+
+theorem mapE_substGate_error_iff (pm : List (String × Expr K)) (qvars : List String) (fs : List Nat)
+    (hl : qvars.length = fs.length) (gates : List (Gate K)) (err : Err) :
+    mapE (substGate pm (qvars.zip (fs.map Qubit.fixed))) gates = .error err ↔ ElemErr qvars gates err := by
+  rw [mapE_error_iff]
+  constructor
+  · rintro ⟨pre, e, post, h1, h2, h3⟩
+    subst h1
+    have hpre : ∀ e' ∈ pre, BoundQubits qvars e' := fun e' he' =>
+      (substGate_zip_ok_iff pm qvars fs hl e').1 (h2 e' he')
+    rw [substGate_error_iff, mapE_error_iff] at h3
+    obtain ⟨qpre, q, rest, hq1, hq2, hq3⟩ := h3
+    have hb : ∀ x ∈ qpre, ∃ v, x = Qubit.var v ∧ v ∈ qvars := fun x hx =>
+      (substQubit_zip_ok_iff qvars fs hl x).1 (hq2 x hx)
+    obtain ⟨vs, hvs, hvm⟩ := (all_bound_iff qvars qpre).1 hb
+    subst hvs
+    rcases (substQubit_zip_error_iff qvars fs hl q err).1 hq3 with ⟨hnv, he⟩ | ⟨v, hv, hnm, he⟩
+    · subst he; exact .invalid hpre hq1 hvm hnv
+    · subst he; subst hv; exact .undefined hpre hq1 hvm hnm
+  · intro h
+    cases h with
+    | @invalid pre e post vs q rest hpre hq hvs hnv =>
+      refine ⟨pre, e, post, rfl, fun x hx => (substGate_zip_ok_iff pm qvars fs hl x).2 (hpre x hx), ?_⟩
+      rw [substGate_error_iff, mapE_error_iff]
+      refine ⟨vs.map Qubit.var, q, rest, hq, ?_, ?_⟩
+      · intro x hx
+        exact (substQubit_zip_ok_iff qvars fs hl x).2 ((all_bound_iff qvars _).2 ⟨vs, rfl, hvs⟩ x hx)
+      · exact (substQubit_zip_error_iff qvars fs hl q _).2 (.inl ⟨hnv, rfl⟩)
+    | @undefined pre e post vs v rest hpre hq hvs hnm =>
+      refine ⟨pre, e, post, rfl, fun x hx => (substGate_zip_ok_iff pm qvars fs hl x).2 (hpre x hx), ?_⟩
+      rw [substGate_error_iff, mapE_error_iff]
+      refine ⟨vs.map Qubit.var, .var v, rest, hq, ?_, ?_⟩
+      · intro x hx
+        exact (substQubit_zip_ok_iff qvars fs hl x).2 ((all_bound_iff qvars _).2 ⟨vs, rfl, hvs⟩ x hx)
+      · exact (substQubit_zip_error_iff qvars fs hl _ _).2 (.inr ⟨v, rfl, hnm, rfl⟩)
+
 theorem expandSeq_error_iff (qvars : List String) (gates : List (Gate K)) (pm : List (String × Expr K))
-    (qargs : List Qubit) (e : Err)
-    (hw : ∀ g ∈ gates, ∀ q ∈ g.qubits, ∃ v, q = Qubit.var v ∧ v ∈ qvars) :
+    (qargs : List Qubit) (e : Err) :
     expandSeq qvars gates pm qargs = .error e ↔
       (qargs.length ≠ qvars.length ∧ e = .qubitCount qvars.length qargs.length) ∨
       (qargs.length = qvars.length ∧ ∃ (fs : List Nat) (q : Qubit) (post : List Qubit),
-        qargs = fs.map Qubit.fixed ++ q :: post ∧ (∀ n, q ≠ Qubit.fixed n) ∧ e = .nonFixedQubit q) := by
+        qargs = fs.map Qubit.fixed ++ q :: post ∧ (∀ n, q ≠ Qubit.fixed n) ∧ e = .nonFixedQubit q) ∨
+      (qargs.length = qvars.length ∧ ∃ fs : List Nat, qargs = fs.map Qubit.fixed ∧ ElemErr qvars gates e) := by
   unfold expandSeq
   by_cases hlen : qargs.length = qvars.length
   · have hne : ¬ (qargs.length ≠ qvars.length) := by simp [hlen]
     rw [if_neg hne]
-    have hR : ((qargs.length ≠ qvars.length ∧ e = .qubitCount qvars.length qargs.length) ∨
-        (qargs.length = qvars.length ∧ ∃ (fs : List Nat) (q : Qubit) (post : List Qubit),
-          qargs = fs.map Qubit.fixed ++ q :: post ∧ (∀ n, q ≠ Qubit.fixed n) ∧ e = .nonFixedQubit q)) ↔
-        ∃ (fs : List Nat) (q : Qubit) (post : List Qubit),
-          qargs = fs.map Qubit.fixed ++ q :: post ∧ (∀ n, q ≠ Qubit.fixed n) ∧ e = .nonFixedQubit q := by
-      constructor
-      · rintro (⟨h, _⟩ | ⟨_, h⟩)
-        · exact absurd hlen h
-        · exact h
-      · intro h; exact .inr ⟨hlen, h⟩
-    rw [hR]
     cases hf : mapE fixedQubit qargs with
     | error e' =>
       simp only
-      have := mapE_fixed_error_iff qargs e
-      rw [hf] at this
+      have key := mapE_fixed_error_iff qargs e
+      rw [hf] at key
       constructor
-      · intro h; cases h; exact this.1 rfl
-      · intro h; have := this.2 h; cases this; rfl
+      · intro h; cases h; exact .inr (.inl ⟨hlen, key.1 rfl⟩)
+      · rintro (⟨h, _⟩ | ⟨_, h⟩ | ⟨_, fs, hq, _⟩)
+        · exact absurd hlen h
+        · have := key.2 h; cases this; rfl
+        · have := (mapE_fixed_ok_iff qargs fs).2 hq
+          rw [hf] at this; cases this
     | ok fs =>
       simp only
       have hq := (mapE_fixed_ok_iff _ _).1 hf
-      obtain ⟨bs, hbs⟩ := substGates_total pm qvars fs gates (by rw [← hlen, hq]; simp) hw
-      rw [hbs]
+      have hl : qvars.length = fs.length := by rw [← hlen, hq]; simp
+      rw [mapE_substGate_error_iff pm qvars fs hl gates e]
       constructor
-      · intro h; cases h
-      · intro h
-        have := (mapE_fixed_error_iff qargs e).2 h
-        rw [hf] at this; cases this
+      · intro h; exact .inr (.inr ⟨hlen, fs, hq, h⟩)
+      · rintro (⟨h, _⟩ | ⟨_, h⟩ | ⟨_, fs', _, h⟩)
+        · exact absurd hlen h
+        · have := (mapE_fixed_error_iff qargs e).2 h
+          rw [hf] at this; cases this
+        · exact h
   · have hne : qargs.length ≠ qvars.length := hlen
     rw [if_pos hne]
     constructor
     · intro h; cases h; exact .inl ⟨hne, rfl⟩
-    · rintro (⟨_, h⟩ | ⟨h, _⟩)
+    · rintro (⟨_, h⟩ | ⟨h, _⟩ | ⟨h, _⟩)
       · rw [h]
       · exact absurd h hlen
+      · exact absurd h hlen
 
-theorem gsfi_error_iff (defs : List (Def K)) (sel : String → Bool) (i : Instr K) (stack : List String) (e : Err)
-    (hw : WellFormed defs) :
+theorem gsfi_error_iff (defs : List (Def K)) (sel : String → Bool) (i : Instr K) (stack : List String) (e : Err) :
     gateSequenceFromInstruction defs sel i stack = .error e ↔ LocalErr defs sel stack i e := by
   cases i with
   | other k =>
@@ -822,7 +1034,6 @@ theorem gsfi_error_iff (defs : List (Def K)) (sel : String → Bool) (i : Instr 
       | seq qvars gates =>
         have hsd : ∀ {d'}, Selected defs sel g d' → d' = d := by
           intro d' h; have := hf.symm.trans h.1; simp at this; exact this.symm
-        have hwd := hw d (findDef_some hf).1 qvars gates hs
         rw [gsfi_gate_seq hf hs]
         by_cases hsel : sel g.name = true
         · have hS : Selected defs sel g d := ⟨hf, ⟨qvars, gates, hs⟩, hsel⟩
@@ -844,18 +1055,20 @@ theorem gsfi_error_iff (defs : List (Def K)) (sel : String → Bool) (i : Instr 
                   | cyclic _ _ _ _ => rfl
                   | qubitCount h1 _ _ h4 _ _ => cases hsd h1; exact absurd hst h4
                   | nonFixed h1 _ _ h4 _ _ _ _ => cases hsd h1; exact absurd hst h4
+                  | elem h1 _ _ h4 _ _ _ _ => cases hsd h1; exact absurd hst h4
               · have : stack.contains d.name = false := by simpa using hst
                 simp only [this, Bool.false_eq_true, if_false]
-                have key := expandSeq_error_iff qvars gates (d.params.zip g.params) g.qubits e hwd
+                have key := expandSeq_error_iff qvars gates (d.params.zip g.params) g.qubits e
                 constructor
                 · intro h
                   have h' : expandSeq qvars gates (d.params.zip g.params) g.qubits = .error e := by
                     split at h
                     · rename_i e' he'; cases h; exact he'
                     · cases h
-                  rcases key.1 h' with ⟨h1, h2⟩ | ⟨h1, fs, q, post, h2, h3, h4⟩
+                  rcases key.1 h' with ⟨h1, h2⟩ | ⟨h1, fs, q, post, h2, h3, h4⟩ | ⟨h1, fs, h2, h3⟩
                   · subst h2; exact .qubitCount hS hpc hm hst hs h1
                   · subst h4; exact .nonFixed hS hpc hm hst hs h1 h2 h3
+                  · exact .elem hS hpc hm hst hs h1 h2 h3
                 · intro h
                   have h' : expandSeq qvars gates (d.params.zip g.params) g.qubits = .error e := by
                     apply key.2
@@ -868,7 +1081,10 @@ theorem gsfi_error_iff (defs : List (Def K)) (sel : String → Bool) (i : Instr 
                       exact .inl ⟨h6, rfl⟩
                     | nonFixed h1 _ _ _ h5 h6 h7 h8 =>
                       cases hsd h1; rw [hs] at h5; cases h5
-                      exact .inr ⟨h6, _, _, _, h7, h8, rfl⟩
+                      exact .inr (.inl ⟨h6, _, _, _, h7, h8, rfl⟩)
+                    | elem h1 _ _ _ h5 h6 h7 h8 =>
+                      cases hsd h1; rw [hs] at h5; cases h5
+                      exact .inr (.inr ⟨h6, _, h7, h8⟩)
                   rw [h']
             · have : (!g.mods.isEmpty) = true := by
                 cases hgm : g.mods with
@@ -884,6 +1100,7 @@ theorem gsfi_error_iff (defs : List (Def K)) (sel : String → Bool) (i : Instr 
                 | cyclic _ _ h3 _ => exact absurd h3 hm
                 | qubitCount _ _ h3 _ _ _ => exact absurd h3 hm
                 | nonFixed _ _ h3 _ _ _ _ _ => exact absurd h3 hm
+                | elem _ _ h3 _ _ _ _ _ => exact absurd h3 hm
           · have hpc' : d.params.length ≠ g.params.length := hpc
             rw [if_pos hpc']
             constructor
@@ -895,6 +1112,7 @@ theorem gsfi_error_iff (defs : List (Def K)) (sel : String → Bool) (i : Instr 
               | cyclic h1 h2 _ _ => cases hsd h1; exact absurd h2 hpc
               | qubitCount h1 h2 _ _ _ _ => cases hsd h1; exact absurd h2 hpc
               | nonFixed h1 h2 _ _ _ _ _ _ => cases hsd h1; exact absurd h2 hpc
+              | elem h1 h2 _ _ _ _ _ _ => cases hsd h1; exact absurd h2 hpc
         · simp only [hsel, Bool.false_eq_true, if_false]
           constructor
           · intro h; cases h
@@ -908,7 +1126,7 @@ theorem expands_single_keep {defs : List (Def K)} {sel : String → Bool} {stack
     (hn : ¬ IsSelectedInvocation defs sel i) : Expands defs sel stack [i] [i] :=
   .keep hn (.nil _)
 
-theorem expandWith_err_iff (defs : List (Def K)) (sel : String → Bool) (hw : WellFormed defs)
+theorem expandWith_err_iff (defs : List (Def K)) (sel : String → Bool)
     (nested : List String → List (Instr K) → Outcome (List (Instr K))) (stack : List String)
     (Hok : ∀ name body out, name ∉ stack → name ∈ defs.map (·.name) →
       (nested (stack ++ [name]) body = .ok out ↔ Expands defs sel (stack ++ [name]) body out))
@@ -927,13 +1145,13 @@ theorem expandWith_err_iff (defs : List (Def K)) (sel : String → Bool) (hw : W
     cases hg : gateSequenceFromInstruction defs sel i stack with
     | error e' =>
       simp only
-      have hl := (gsfi_error_iff defs sel i stack e' hw).1 hg
+      have hl := (gsfi_error_iff defs sel i stack e').1 hg
       constructor
       · intro h; cases h; exact .here hl
       · intro h
         cases h with
         | here hl' =>
-          have := (gsfi_error_iff defs sel i stack e hw).2 hl'
+          have := (gsfi_error_iff defs sel i stack e).2 hl'
           rw [hg] at this; cases this; rfl
         | inside hsel hm hns hinst _ =>
           rw [(gsfi_some_iff _ _ _ _ _ _).2 ⟨_, _, _, rfl, hsel, hm, hns, hinst, rfl, rfl⟩] at hg; cases hg
@@ -958,7 +1176,7 @@ theorem expandWith_err_iff (defs : List (Def K)) (sel : String → Bool) (hw : W
         · intro h
           cases h with
           | here hl =>
-            have := (gsfi_error_iff defs sel i stack e hw).2 hl
+            have := (gsfi_error_iff defs sel i stack e).2 hl
             rw [hg] at this; cases this
           | inside hsel _ _ _ _ => exact absurd ⟨_, _, rfl, hsel⟩ hn
           | later _ hrest => rw [ih.2 hrest]
@@ -995,7 +1213,7 @@ theorem expandWith_err_iff (defs : List (Def K)) (sel : String → Bool) (hw : W
         · intro h
           cases h with
           | here hl =>
-            have := (gsfi_error_iff defs sel _ stack e hw).2 hl
+            have := (gsfi_error_iff defs sel _ stack e).2 hl
             rw [hg] at this; cases this
           | inside hsel' hm' hns'' hinst' hin =>
             obtain ⟨e1, e2⟩ := hgs hsel' hm' hns'' hinst'
@@ -1009,18 +1227,44 @@ theorem expandWith_err_iff (defs : List (Def K)) (sel : String → Bool) (hw : W
               rw [e1, e2] at hbody
               rw [(Hok _ _ _ hns hnd).2 hbody, ih.2 hrest]
 
-theorem expandFuel_err_iff (defs : List (Def K)) (sel : String → Bool) (hw : WellFormed defs) (fuel : Nat)
+theorem expandFuel_err_iff (defs : List (Def K)) (sel : String → Bool) (fuel : Nat)
     (stack : List String) (src : List (Instr K)) (e : Err) (hf : remaining defs stack < fuel) :
     expandFuel defs sel fuel stack src = .err e ↔ ErrAt defs sel stack src e := by
   induction fuel generalizing stack src e with
   | zero => omega
   | succ n ih =>
     simp only [expandFuel]
-    apply expandWith_err_iff defs sel hw
+    apply expandWith_err_iff defs sel
     · intro name body out hns hnd
       exact expandFuel_ok_iff defs sel n _ _ _ (by have := remaining_push_lt defs stack name hnd hns; omega)
     · intro name body e' hns hnd
       exact ih _ _ _ (by have := remaining_push_lt defs stack name hnd hns; omega)
+
+theorem pointwise_split {α β : Type} {R : α → β → Prop} {pre : List α} {a : α} {post : List α} {m : List β}
+    (h : Pointwise R (pre ++ a :: post) m) : ∃ b, R a b := by
+  induction pre generalizing m with
+  | nil => cases h with | cons hr _ => exact ⟨_, hr⟩
+  | cons x xs ih => cases h with | cons _ hrest => exact ih hrest
+
+/-- a malformed element cannot be instantiated -/
+theorem elemErr_not_pointwise {qvars : List String} {gates : List (Gate K)} {e : Err}
+    {σ : String → Option (Expr K)} {ρ : String → Option Qubit} {body : List (Gate K)}
+    (he : ElemErr qvars gates e) (hρ : ∀ v q, ρ v = some q → v ∈ qvars)
+    (hp : Pointwise (ElemInstance σ ρ) gates body) : False := by
+  cases he with
+  | invalid _ hq _ hnv =>
+    obtain ⟨b, hb⟩ := pointwise_split hp
+    have := hb.qubits
+    rw [hq] at this
+    obtain ⟨bq, v, hv, _⟩ := pointwise_split this
+    exact hnv v hv
+  | undefined _ hq _ hnm =>
+    obtain ⟨b, hb⟩ := pointwise_split hp
+    have := hb.qubits
+    rw [hq] at this
+    obtain ⟨bq, v', hv, hr⟩ := pointwise_split this
+    cases hv
+    exact hnm (hρ _ _ hr)
 
 /-- a misused invocation cannot also be unfolded or kept -/
 theorem localErr_not_expands {defs : List (Def K)} {sel : String → Bool} {stack : List String} {i : Instr K}
@@ -1033,7 +1277,7 @@ theorem localErr_not_expands {defs : List (Def K)} {sel : String → Bool} {stac
     apply hn
     cases hl <;> exact ⟨_, _, rfl, ‹Selected defs sel _ _›⟩
   | unfold hsel hm hns hinst _ _ =>
-    obtain ⟨qv, gs, fs, σ, ρ, hs, hp, hq, hfx, _⟩ := hinst
+    obtain ⟨qv, gs, fs, σ, ρ, hs, hp, hq, hfx, _, hρ, hpw⟩ := hinst
     cases hl with
     | paramCount h1 h2 => cases hsd hsel h1; exact h2 hp.symm
     | modifiers _ _ h3 => exact h3 hm
@@ -1044,6 +1288,11 @@ theorem localErr_not_expands {defs : List (Def K)} {sel : String → Bool} {stac
       have hmem : q ∈ fs.map Qubit.fixed := by rw [h7]; simp
       obtain ⟨n, _, hn⟩ := List.mem_map.1 hmem
       exact h8 n hn.symm
+    | elem h1 _ _ _ h5 _ _ h8 =>
+      cases hsd hsel h1; rw [hs] at h5; cases h5
+      refine elemErr_not_pointwise h8 (fun v q hvq => ?_) hpw
+      obtain ⟨i, hi, _⟩ := (hρ v q).1 hvq
+      exact List.mem_of_getElem? hi
 
 theorem expands_mem_split {defs : List (Def K)} {sel : String → Bool} {stack : List String}
     {src out : List (Instr K)} (hx : Expands defs sel stack src out) {i : Instr K} (hi : i ∈ src) :
@@ -1092,5 +1341,310 @@ theorem errAt_bad {defs : List (Def K)} {sel : String → Bool} {stack : List St
     cases ih with
     | here hi hl => exact .here (by simp [hi]) hl
     | inside hi hsel hm hns hinst hb => exact .inside (by simp [hi]) hsel hm hns hinst hb
+
+/-! ### the stack-free relation implies the stack-indexed one (finite derivations contain no cycle) -/
+
+/-- `ExpandsPure` with a bound on the nesting depth of unfoldings -/
+inductive ExpandsPureN (defs : List (Def K)) (sel : String → Bool) :
+    Nat → List (Instr K) → List (Instr K) → Prop
+  | nil (n) : ExpandsPureN defs sel n [] []
+  | keep {n i rest out} :
+      ¬ IsSelectedInvocation defs sel i → ExpandsPureN defs sel n rest out →
+      ExpandsPureN defs sel n (i :: rest) (i :: out)
+  | unfold {n g d body b rest out} :
+      Selected defs sel g d → g.mods = [] → Instantiates d g body →
+      ExpandsPureN defs sel n (body.map Instr.gate) b →
+      ExpandsPureN defs sel (n + 1) rest out →
+      ExpandsPureN defs sel (n + 1) (.gate g :: rest) (b ++ out)
+
+theorem expandsPureN_mono {defs : List (Def K)} {sel : String → Bool} {n m : Nat} {src out : List (Instr K)}
+    (h : ExpandsPureN defs sel n src out) (hm : n ≤ m) : ExpandsPureN defs sel m src out := by
+  induction h generalizing m with
+  | nil => exact .nil _
+  | keep hn _ ih => exact .keep hn (ih hm)
+  | unfold hsel hmods hinst _ _ ih1 ih2 =>
+    cases m with
+    | zero => omega
+    | succ m' => exact .unfold hsel hmods hinst (ih1 (by omega)) (ih2 (by omega))
+
+theorem expandsPure_sized {defs : List (Def K)} {sel : String → Bool} {src out : List (Instr K)}
+    (h : ExpandsPure defs sel src out) : ∃ n, ExpandsPureN defs sel n src out := by
+  induction h with
+  | nil => exact ⟨0, .nil _⟩
+  | keep hn _ ih => obtain ⟨n, h⟩ := ih; exact ⟨n, .keep hn h⟩
+  | unfold hsel hm hinst _ _ ih1 ih2 =>
+    obtain ⟨n1, h1⟩ := ih1
+    obtain ⟨n2, h2⟩ := ih2
+    exact ⟨max n1 n2 + 1, .unfold hsel hm hinst (expandsPureN_mono h1 (by omega)) (expandsPureN_mono h2 (by omega))⟩
+
+/-- the definition named `u` has a sequence element named `v`, and `v` names a selected sequence definition -/
+def Calls (defs : List (Def K)) (sel : String → Bool) (u v : String) : Prop :=
+  ∃ du qv gs e dv, findDef defs u = some du ∧ du.spec = .seq qv gs ∧ e ∈ gs ∧ e.name = v ∧
+    findDef defs v = some dv ∧ (∃ qv' gs', dv.spec = .seq qv' gs') ∧ sel v = true
+
+inductive CallsPlus (defs : List (Def K)) (sel : String → Bool) : String → String → Prop
+  | single {u v} : Calls defs sel u v → CallsPlus defs sel u v
+  | step {u v w} : Calls defs sel u v → CallsPlus defs sel v w → CallsPlus defs sel u w
+
+theorem callsPlus_snoc {defs : List (Def K)} {sel : String → Bool} {a b c : String}
+    (h : CallsPlus defs sel a b) (hc : Calls defs sel b c) : CallsPlus defs sel a c := by
+  induction h with
+  | single h1 => exact .step h1 (.single hc)
+  | step h1 _ ih => exact .step h1 (ih hc)
+
+theorem pointwise_mem_left {α β : Type} {R : α → β → Prop} {l : List α} {m : List β}
+    (h : Pointwise R l m) {a : α} (ha : a ∈ l) : ∃ b ∈ m, R a b := by
+  induction h with
+  | nil => simp at ha
+  | cons hr _ ih =>
+    cases ha with
+    | head => exact ⟨_, by simp, hr⟩
+    | tail _ ha' => obtain ⟨b, hb, hR⟩ := ih ha'; exact ⟨b, by simp [hb], hR⟩
+
+theorem pointwise_mem_right {α β : Type} {R : α → β → Prop} {l : List α} {m : List β}
+    (h : Pointwise R l m) {b : β} (hb : b ∈ m) : ∃ a ∈ l, R a b := by
+  induction h with
+  | nil => simp at hb
+  | cons hr _ ih =>
+    cases hb with
+    | head => exact ⟨_, by simp, hr⟩
+    | tail _ hb' => obtain ⟨a, ha, hR⟩ := ih hb'; exact ⟨a, by simp [ha], hR⟩
+
+/-- a selected invocation inside a bounded derivation is unfolded one level deeper -/
+theorem expandsPureN_extract {defs : List (Def K)} {sel : String → Bool} {n : Nat} {src out : List (Instr K)}
+    (h : ExpandsPureN defs sel n src out) {g : Gate K} {d : Def K} (hg : Instr.gate g ∈ src)
+    (hsel : Selected defs sel g d) :
+    ∃ n' body b, n = n' + 1 ∧ Instantiates d g body ∧ ExpandsPureN defs sel n' (body.map Instr.gate) b := by
+  induction h with
+  | nil => simp at hg
+  | keep hn _ ih =>
+    cases hg with
+    | head => exact absurd ⟨_, _, rfl, hsel⟩ hn
+    | tail _ hg' => exact ih hg'
+  | @unfold n g0 d0 body b rest out hsel0 _ hinst hb _ _ ih2 =>
+    cases hg with
+    | head =>
+      have e := hsel.1.symm.trans hsel0.1
+      simp at e; subst e
+      exact ⟨n, body, b, rfl, hinst, hb⟩
+    | tail _ hg' => exact ih2 hg'
+
+/-- some well-formed invocation of the definition named `v` has a body whose expansion has depth ≤ `n` -/
+def Derivable (defs : List (Def K)) (sel : String → Bool) (n : Nat) (v : String) : Prop :=
+  ∃ g d body b, Selected defs sel g d ∧ d.name = v ∧ Instantiates d g body ∧
+    ExpandsPureN defs sel n (body.map Instr.gate) b
+
+theorem selected_name {defs : List (Def K)} {sel : String → Bool} {g : Gate K} {d : Def K}
+    (h : Selected defs sel g d) : d.name = g.name := (findDef_some h.1).2
+
+theorem derivable_calls {defs : List (Def K)} {sel : String → Bool} {n : Nat} {u v : String}
+    (h : Derivable defs sel n u) (hc : Calls defs sel u v) : ∃ m, m < n ∧ Derivable defs sel m v := by
+  obtain ⟨g, d, body, b, hsel, hdn, hinst, hder⟩ := h
+  obtain ⟨du, qv, gs, e, dv, hfu, hsu, he, hen, hfv, hsv, hselv⟩ := hc
+  have hdu : du = d := by
+    have h1 := hsel.1
+    rw [← selected_name hsel, hdn, hfu] at h1
+    simpa using h1
+  subst hdu
+  obtain ⟨qv0, gs0, fs, σ, ρ, hs0, _, _, _, _, _, hpw⟩ := hinst
+  rw [hsu] at hs0; cases hs0
+  obtain ⟨be, hbe, hinstE⟩ := pointwise_mem_left hpw he
+  have hbn : be.name = v := hinstE.name.trans hen
+  have hselB : Selected defs sel be dv := ⟨by rw [hbn]; exact hfv, hsv, by rw [hbn]; exact hselv⟩
+  obtain ⟨n', body', b', hn, hinst', hder'⟩ :=
+    expandsPureN_extract hder (List.mem_map.2 ⟨be, hbe, rfl⟩) hselB
+  exact ⟨n', by omega, be, dv, body', b', hselB, (selected_name hselB).trans hbn, hinst', hder'⟩
+
+theorem derivable_callsPlus {defs : List (Def K)} {sel : String → Bool} {n : Nat} {u v : String}
+    (hc : CallsPlus defs sel u v) (h : Derivable defs sel n u) : ∃ m, m < n ∧ Derivable defs sel m v := by
+  induction hc generalizing n with
+  | single h1 => exact derivable_calls h h1
+  | step h1 _ ih =>
+    obtain ⟨m, hm, hd⟩ := derivable_calls h h1
+    obtain ⟨m', hm', hd'⟩ := ih hd
+    exact ⟨m', by omega, hd'⟩
+
+/-- **No cycle inside a finite derivation.** -/
+theorem derivable_acyclic {defs : List (Def K)} {sel : String → Bool} (n : Nat) (u : String)
+    (h : Derivable defs sel n u) : ¬ CallsPlus defs sel u u := by
+  induction n using Nat.strongRecOn generalizing u with
+  | _ n ih =>
+    intro hc
+    obtain ⟨m, hm, hd⟩ := derivable_callsPlus hc h
+    exact ih m hm u hd hc
+
+theorem instance_calls {defs : List (Def K)} {sel : String → Bool} {g g' : Gate K} {d d' : Def K}
+    {body : List (Gate K)} (hsel : Selected defs sel g d) (hinst : Instantiates d g body)
+    (hg' : Instr.gate g' ∈ body.map Instr.gate) (hsel' : Selected defs sel g' d') :
+    Calls defs sel d.name d'.name := by
+  obtain ⟨qv, gs, fs, σ, ρ, hs, _, _, _, _, _, hpw⟩ := hinst
+  obtain ⟨x, hx, hxe⟩ := List.mem_map.1 hg'
+  cases hxe
+  obtain ⟨e, he, hE⟩ := pointwise_mem_right hpw hx
+  have hn' := selected_name hsel'
+  refine ⟨d, qv, gs, e, d', ?_, hs, he, by rw [hn']; exact hE.name.symm, ?_, hsel'.2.1, ?_⟩
+  · rw [selected_name hsel]; exact hsel.1
+  · rw [hn']; exact hsel'.1
+  · rw [hn']; exact hsel'.2.2
+
+theorem expandsPureN_expands {defs : List (Def K)} {sel : String → Bool} {n : Nat} {src out : List (Instr K)}
+    (h : ExpandsPureN defs sel n src out) (stack : List String)
+    (hinv : ∀ s ∈ stack, ∀ g d, Instr.gate g ∈ src → Selected defs sel g d → CallsPlus defs sel s d.name) :
+    Expands defs sel stack src out := by
+  induction h generalizing stack with
+  | nil => exact .nil _
+  | keep hn _ ih =>
+    exact .keep hn (ih stack fun s hs g d hg hsel => hinv s hs g d (by simp [hg]) hsel)
+  | @unfold n g d body b rest out hsel hm hinst hb _ ih1 ih2 =>
+    have hder : Derivable defs sel n d.name := ⟨g, d, body, b, hsel, rfl, hinst, hb⟩
+    have hns : d.name ∉ stack := fun hin =>
+      derivable_acyclic n d.name hder (hinv d.name hin g d (by simp) hsel)
+    refine .unfold hsel hm hns hinst (ih1 (stack ++ [d.name]) ?_)
+      (ih2 stack fun s hs g' d' hg' hsel' => hinv s hs g' d' (by simp [hg']) hsel')
+    intro s hs g' d' hg' hsel'
+    have hc := instance_calls hsel hinst hg' hsel'
+    rcases List.mem_append.1 hs with hs | hs
+    · exact callsPlus_snoc (hinv s hs g d (by simp) hsel) hc
+    · simp at hs; subst hs; exact .single hc
+
+/-! ### the verifier `verifyPure` -/
+
+theorem mem_removeName {allowed : List String} {name n : String} :
+    n ∈ removeName allowed name ↔ n ∈ allowed ∧ n ≠ name := by
+  simp [removeName]
+
+/-- `allowed` are exactly the definition names that are not on the stack (it may contain other names too) -/
+def AllowedInv (defs : List (Def K)) (allowed stack : List String) : Prop :=
+  (∀ n, n ∈ defs.map (·.name) → n ∉ stack → n ∈ allowed) ∧ (∀ n ∈ stack, n ∉ allowed)
+
+theorem allowedInv_push {defs : List (Def K)} {allowed stack : List String} {name : String}
+    (h : AllowedInv defs allowed stack) : AllowedInv defs (removeName allowed name) (stack ++ [name]) := by
+  constructor
+  · intro n hn hns
+    simp at hns
+    exact mem_removeName.2 ⟨h.1 n hn hns.1, hns.2⟩
+  · intro n hn hm
+    obtain ⟨hma, hne⟩ := mem_removeName.1 hm
+    rcases List.mem_append.1 hn with hn | hn
+    · exact h.2 n hn hma
+    · simp at hn; exact hne hn
+
+theorem gsfi_nil_stack {defs : List (Def K)} {sel : String → Bool} {g : Gate K} {d : Def K}
+    {body : List (Gate K)} (hsel : Selected defs sel g d) (hm : g.mods = []) (hinst : Instantiates d g body) :
+    gateSequenceFromInstruction defs sel (.gate g) [] = .ok (some (body.map Instr.gate, d.name)) :=
+  (gsfi_some_iff _ _ _ _ _ _).2 ⟨_, _, _, rfl, hsel, hm, by simp, hinst, rfl, rfl⟩
+
+theorem verifyPure_iff [DecidableEq K] (defs : List (Def K)) (sel : String → Bool) (allowed : List String)
+    (src out : List (Instr K)) :
+    ∀ (stack : List String), AllowedInv defs allowed stack → ∀ r,
+      (verifyPure defs sel allowed src out = some r ↔ ∃ o, out = o ++ r ∧ Expands defs sel stack src o) := by
+  induction allowed, src, out using verifyPure.induct defs sel with
+  | case1 allowed out =>
+    intro stack _ r
+    simp only [verifyPure]
+    constructor
+    · intro h; cases h; exact ⟨[], rfl, .nil _⟩
+    · rintro ⟨o, h1, h2⟩; cases h2; simp at h1; rw [h1]
+  | case2 allowed i rest out a hg =>
+    intro stack _ r
+    rw [verifyPure.eq_def]; simp only [hg]
+    constructor
+    · intro h; cases h
+    · rintro ⟨o, _, h2⟩
+      cases h2 with
+      | keep hn _ => rw [(gsfi_none_iff _ _ _ _).2 hn] at hg; cases hg
+      | unfold hsel hm _ hinst _ _ => rw [gsfi_nil_stack hsel hm hinst] at hg; cases hg
+  | case3 allowed rest o out' hg ih =>
+    intro stack hinv r
+    have hn := (gsfi_none_iff _ _ _ _).1 hg
+    rw [verifyPure.eq_def]; simp only [hg, if_true]
+    rw [ih stack hinv r]
+    constructor
+    · rintro ⟨o2, h1, h2⟩; exact ⟨o :: o2, by simp [h1], .keep hn h2⟩
+    · rintro ⟨o3, h1, h2⟩
+      cases h2 with
+      | keep _ hrest => simp at h1; exact ⟨_, h1, hrest⟩
+      | unfold hsel _ _ _ _ _ => exact absurd ⟨_, _, rfl, hsel⟩ hn
+  | case4 allowed i rest hg o out' hne =>
+    intro stack _ r
+    have hn := (gsfi_none_iff _ _ _ _).1 hg
+    rw [verifyPure.eq_def]; simp only [hg, hne, if_false]
+    constructor
+    · intro h; cases h
+    · rintro ⟨o3, h1, h2⟩
+      cases h2 with
+      | keep _ _ => simp at h1; exact absurd h1.1 hne
+      | unfold hsel _ _ _ _ _ => exact absurd ⟨_, _, rfl, hsel⟩ hn
+  | case5 allowed i rest hg =>
+    intro stack _ r
+    have hn := (gsfi_none_iff _ _ _ _).1 hg
+    rw [verifyPure.eq_def]; simp only [hg]
+    constructor
+    · intro h; cases h
+    · rintro ⟨o3, h1, h2⟩
+      cases h2 with
+      | keep _ _ => simp at h1
+      | unfold hsel _ _ _ _ _ => exact absurd ⟨_, _, rfl, hsel⟩ hn
+  | case6 allowed i rest out body name hg hmem out' hinner ih1 ih2 =>
+    intro stack hinv r
+    obtain ⟨g, d, body0, hi, hsel, hm, _, hinst, hb, hname⟩ := (gsfi_some_iff _ _ _ _ _ _).1 hg
+    subst hi; subst hb; subst hname
+    have hns : d.name ∉ stack := fun hin => hinv.2 _ hin hmem
+    have hinv' := allowedInv_push (name := d.name) hinv
+    rw [verifyPure.eq_def]; simp only [hg, hmem, dite_true, hinner]
+    rw [ih2 stack hinv r]
+    have key := (ih1 (stack ++ [d.name]) hinv' out').1 hinner
+    obtain ⟨b, hout, hbx⟩ := key
+    constructor
+    · rintro ⟨o2, h1, h2⟩
+      exact ⟨b ++ o2, by rw [hout, h1]; simp, .unfold hsel hm hns hinst hbx h2⟩
+    · rintro ⟨o3, h1, h2⟩
+      cases h2 with
+      | keep hn _ => exact absurd ⟨_, _, rfl, hsel⟩ hn
+      | @unfold _ _ d' body' b' _ o2 hsel' hm' _ hinst' hb' hrest =>
+        have e := gsfi_nil_stack hsel' hm' hinst'
+        rw [hg] at e
+        simp at e
+        obtain ⟨e1, e2⟩ := e
+        rw [← e1, ← e2] at hb'
+        have := (ih1 (stack ++ [d.name]) hinv' (o2 ++ r)).2 ⟨b', by rw [h1]; simp, hb'⟩
+        rw [hinner] at this
+        cases this
+        exact ⟨o2, rfl, hrest⟩
+  | case7 allowed i rest out body name hg hmem hinner ih1 =>
+    intro stack hinv r
+    obtain ⟨g, d, body0, hi, hsel, hm, _, hinst, hb, hname⟩ := (gsfi_some_iff _ _ _ _ _ _).1 hg
+    subst hi; subst hb; subst hname
+    have hinv' := allowedInv_push (name := d.name) hinv
+    rw [verifyPure.eq_def]; simp only [hg, hmem, dite_true, hinner]
+    constructor
+    · intro h; cases h
+    · rintro ⟨o3, h1, h2⟩
+      cases h2 with
+      | keep hn _ => exact absurd ⟨_, _, rfl, hsel⟩ hn
+      | @unfold _ _ d' body' b' _ o2 hsel' hm' _ hinst' hb' hrest =>
+        have e := gsfi_nil_stack hsel' hm' hinst'
+        rw [hg] at e
+        simp at e
+        obtain ⟨e1, e2⟩ := e
+        rw [← e1, ← e2] at hb'
+        have := (ih1 (stack ++ [d.name]) hinv' (o2 ++ r)).2 ⟨b', by rw [h1]; simp, hb'⟩
+        rw [hinner] at this
+        cases this
+  | case8 allowed i rest out body name hg hmem =>
+    intro stack hinv r
+    obtain ⟨hns0, hnd⟩ := gsfi_some_name hg
+    obtain ⟨g, d, body0, hi, hsel, hm, _, hinst, hb, hname⟩ := (gsfi_some_iff _ _ _ _ _ _).1 hg
+    subst hi; subst hb; subst hname
+    rw [verifyPure.eq_def]; simp only [hg, hmem, dite_false]
+    constructor
+    · intro h; cases h
+    · rintro ⟨o3, h1, h2⟩
+      cases h2 with
+      | keep hn _ => exact absurd ⟨_, _, rfl, hsel⟩ hn
+      | @unfold _ _ d' body' b' _ o2 hsel' hm' hns' hinst' hb' hrest =>
+        have e := hsel.1.symm.trans hsel'.1
+        simp at e; subst e
+        exact absurd (hinv.1 _ hnd hns') hmem
 
 end QV.C20
